@@ -120,6 +120,29 @@ def analyse(prog, ctx_cfg) -> list:
                     key_names = _names(kexpr)
             if not any(c == ctext and (k == ktext) for c, k in lookups):
                 continue
+            # a memo stores on the MISS path of the lookup: the store is reached only through the "not in cache" side
+            # of a membership test of this cache and key (a store that does not depend on the lookup - e.g. made
+            # under an unrelated condition while another branch does get-or-create grouping - fills an index)
+            has_get = any(isinstance(n, ast.Call) and isinstance(n.func, ast.Attribute) and n.func.attr == 'get'
+                          and n.args and stmt_text(n.func.value) == ctext and stmt_text(n.args[0]) == ktext
+                          for n in own_nodes(f.node))
+            on_miss = has_get
+            for g in cfg.nodes:
+                if on_miss or g.kind != 'if' or node is None or not cfg.dominates(g, node) or g is node:
+                    continue
+                for c in ast.walk(g.ast.test):
+                    if isinstance(c, ast.Compare) and len(c.ops) == 1 and isinstance(c.ops[0], (ast.In, ast.NotIn)) \
+                            and stmt_text(c.comparators[0]) == ctext and stmt_text(c.left) == ktext:
+                        neg = isinstance(g.ast.test, ast.UnaryOp) and isinstance(g.ast.test.op, ast.Not)
+                        miss_lab = 'T' if (isinstance(c.ops[0], ast.NotIn) != neg) else 'F'
+                        hit = [t for t, l in g.succ if l != miss_lab]
+                        reach = set()
+                        for t in hit:
+                            reach |= {t.idx} | cfg.reachable_from(t, avoiding={g.idx})
+                        if node.idx not in reach:
+                            on_miss = True
+            if not on_miss:
+                continue
             # value: a call, possibly through a local
             vexpr = val
             if isinstance(val, ast.Name):
